@@ -18,13 +18,15 @@ st(i, t) == [h |-> "STALE", id |-> i, tgt |-> t]            \* a rule of an earl
 old(i, t) == [h |-> "", id |-> i, tgt |-> t]                 \* pre-hash Felix hook rule (jump to one of our chains)
 
 DesChains == {"cali-a", "cali-b"}
+\* (rules, ForceProgramming) variants; cali-a may jump to cali-b, cali-b may have zero rules
+cm(rs, fp) == [rules |-> rs, force |-> fp]
 ChainMenu(c) ==
     IF c = "cali-a"
-      THEN {<<b(1)>>, <<b(1), j(2, "cali-b")>>}
-           \cup (IF Rich >= 1 THEN {<<>>, <<b(1), b(2)>>} ELSE {})
-           \cup (IF Rich >= 2 THEN {<<b(2), b(1)>>, <<b(1), b(2), b(3)>>, <<b(2)>>} ELSE {})
-      ELSE {<<b(1)>>} \cup (IF Rich >= 1 THEN {<<b(1), b(2)>>} ELSE {})
-                      \cup (IF Rich >= 2 THEN {<<>>, <<b(2)>>, <<b(3), b(1)>>} ELSE {})
+      THEN {cm(<<b(1)>>, FALSE), cm(<<b(1), j(2, "cali-b")>>, FALSE), cm(<<b(1), j(2, "cali-b")>>, TRUE)}
+           \cup (IF Rich >= 1 THEN {cm(<<>>, FALSE), cm(<<b(1), b(2)>>, FALSE)} ELSE {})
+           \cup (IF Rich >= 2 THEN {cm(<<b(2), b(1)>>, FALSE), cm(<<b(1), b(2), b(3)>>, FALSE), cm(<<b(2)>>, TRUE)} ELSE {})
+      ELSE {cm(<<b(1)>>, FALSE), cm(<<>>, FALSE)} \cup (IF Rich >= 1 THEN {cm(<<b(1), b(2)>>, FALSE)} ELSE {})
+                      \cup (IF Rich >= 2 THEN {cm(<<b(2)>>, TRUE), cm(<<b(3), b(1)>>, FALSE)} ELSE {})
 InsMenu == {<<>>, <<b(3), j(5, "cali-a")>>}
            \cup (IF Rich >= 1 THEN {<<j(5, "cali-a")>>} ELSE {})
            \cup (IF Rich >= 2 THEN {<<j(6, "cali-b"), j(5, "cali-a")>>, <<b(3)>>} ELSE {})
@@ -49,7 +51,7 @@ Edits ==
     \cup { [kind |-> "replace", chain |-> c, pos |-> 9, rule |-> r] :
              c \in {"cali-a"} \cup (IF Rich >= 1 THEN KCh \cup {"cali-b"} ELSE {}), r \in {st(4, "")} \cup (IF Rich >= 1 THEN {f(7)} ELSE {}) }
     \cup { [kind |-> "flush", chain |-> c] : c \in IF Rich >= 1 THEN DesChains ELSE {} }
-    \cup { [kind |-> "delchain", chain |-> c] : c \in {"cali-a"} \cup (IF Rich >= 1 THEN {"cali-b"} ELSE {}) }
+    \cup { [kind |-> "delchain", chain |-> c] : c \in {"cali-a", "cali-b"} }
     \cup { [kind |-> "addchain", chain |-> c, rules |-> rs] :
              c \in {"cali-old"} \cup (IF Rich >= 1 THEN {"felix-old"} ELSE {}), rs \in {<<st(1, "")>>} }
     \cup { [kind |-> "addchain", chain |-> "other", rules |-> rs] :
